@@ -147,6 +147,54 @@ theorem hmacTag_sites (l hashLen : Nat) (h : l ≤ hashLen) : KW.hmacTag l hashL
   unfold KW.hmacTag
   exact KW.bind_eq KW.makeChk8 (KW.bind_eq KW.putUint64_8 (KW.sliceChk_ok (by omega) (by omega) (by omega)))
 
+/-- `aesCBCAEAD.Open` at the level of lengths (after fixes 5c853ad, c71e752): for a nonce, a
+ciphertext, a destination of ANY length and capacity, a verifying or failing tag and any result of
+unpadding (a prefix of the body), every slice, `make`, `NewCBCDecrypter` and `CryptBlocks` is inside
+its domain — `Open` answers malformed input with an error. -/
+theorem aeadOpen_sites (nonceLen ctLen tagSize dstCap dstLen : Nat) (tagOK : Bool) (unpadded : Nat → Option Nat)
+    (hu : ∀ b k, unpadded b = some k → k ≤ b) :
+    (KW.aeadOpen true true nonceLen ctLen tagSize dstCap dstLen tagOK unpadded).isPanic = false := by
+  unfold KW.aeadOpen
+  by_cases hn : nonceLen = 16
+  · simp only [hn, ne_eq, not_true_eq_false, decide_false, Bool.and_false, Bool.false_eq_true, if_false]
+    by_cases ht : ctLen < tagSize
+    · rw [if_pos ht]; rfl
+    · rw [if_neg ht, KW.sliceChk_ok (by omega) (by omega) (by omega), bind_ok,
+        KW.sliceChk_ok (by omega) (by omega) (by omega), bind_ok]
+      cases tagOK
+      · rfl
+      · simp only [Bool.not_true, Bool.false_eq_true, if_false, Bool.true_and, decide_eq_true_eq]
+        by_cases ha : (ctLen - tagSize) % 16 = 0
+        · rw [if_neg (by simpa using ha)]
+          have hgrow : ∀ k : Nat → Outcome Nat, (k (dstLen + (ctLen - tagSize))).isPanic = false →
+              ((if dstCap ≥ dstLen + (ctLen - tagSize) then
+                  (sliceChk dstCap 0 (dstLen + (ctLen - tagSize) : Nat)).bind fun _ => .ok (dstLen + (ctLen - tagSize))
+                else makeChk (dstLen + (ctLen - tagSize) : Nat)).bind k).isPanic = false := by
+            intro k hk
+            by_cases hc : dstCap ≥ dstLen + (ctLen - tagSize)
+            · rw [if_pos hc, KW.sliceChk_ok (by omega) (by omega) (by omega), bind_ok, bind_ok]; exact hk
+            · rw [if_neg hc, KW.makeChk_nat, bind_ok]; exact hk
+          apply hgrow
+          rw [KW.sliceChk_ok (by omega) (by omega) (by omega), bind_ok]
+          simp only [KW.newCBC, ne_eq, not_true_eq_false, if_false, bind_ok, KW.cryptBlocks, ha, Nat.lt_irrefl]
+          cases hk : unpadded (ctLen - tagSize) with
+          | none => rfl
+          | some k =>
+            have := hu _ _ hk
+            simp only []
+            rw [KW.sliceChk_ok (by omega) (by omega) (by omega), bind_ok]; rfl
+        · rw [if_pos (by simpa using ha)]; rfl
+  · have : (true && decide (nonceLen ≠ 16)) = true := by simp [hn]
+    rw [if_pos this]; rfl
+
+example : KW.aeadOpen true true 16 48 16 0 0 true (fun b => some (b - 1)) = .ok 31 := by decide
+
+/-- The code as found: a verifying tag under a 12-byte nonce panicked in `NewCBCDecrypter`, and an
+authentic body that is not block aligned panicked in `CryptBlocks`. -/
+theorem aeadOpen_prefix_witness :
+    (KW.aeadOpen false true 12 48 16 0 0 true (fun b => some b)).isPanic = true ∧
+    (KW.aeadOpen true false 16 33 16 0 0 true (fun b => some b)).isPanic = true := by decide
+
 /-- `verifyPublicKeyEdDSA` after fix 2829ef0 reaches `ed25519.Verify` only with a 32-byte key. -/
 theorem verifyEd25519_sites (rawOK : Bool) (keyLen : Nat) : (Reflect.verifyEd25519 rawOK keyLen).isPanic = false := by
   unfold Reflect.verifyEd25519
@@ -175,7 +223,7 @@ theorem cited_sites_exist :
       (· ∈ thm_names% [Kit.C07.aeskw_wrap_sites, Kit.C07.aeskw_unwrap_sites, Kit.C07.arrXor_sites,
         Kit.C07.arrConcat_sites, Kit.C07.decodeString_reflect_sites, Kit.C07.decodeMetadata_reflect_sites,
         Kit.C07.resolveAliases_reflect_sites, Kit.C07.newAESCBCAEAD_sites, Kit.C07.growDst_sites,
-        Kit.C07.verifyEd25519_sites, Kit.C07.typeElem_sites, Kit.C07.hmacTag_sites, Kit.C07.unwrapIface_terminates, Kit.C07.hookTypeCalls_sites]) = true := by
+        Kit.C07.verifyEd25519_sites, Kit.C07.typeElem_sites, Kit.C07.hmacTag_sites, Kit.C07.unwrapIface_terminates, Kit.C07.hookTypeCalls_sites, Kit.C07.aeadOpen_sites]) = true := by
   decide +kernel
 
 end Kit.C07
